@@ -89,6 +89,9 @@ def cases(E):
     cs.append(Case(H + "include_ips_neutral_contract", "any", shape_node, target=[N + "emit", N + "pc_after"]))
     cs.append(Case(H + "include_ips_per_expansion_contract", "the same directive expanded twice with different deltas", shape_twice, target=["a816.parse.codegen.generate_include_ips", N + "__init__"],
                    no_loop_specs=True, overrides=OPEN, drop_overrides=["a816.parse.ast.expression.eval_expression"]))
+    # re-emission: Program.emit hands every record of the node to the writer, in order (C03's loop contract for the IncludeIpsNode branch)
+    from vf.props import C03 as c03
+    cs += c03.include_ips_emit_cases(E)
     return cs
 
 
